@@ -1,0 +1,61 @@
+//go:build verif
+
+package stake
+
+import (
+	"github.com/rigochain/rigo-go/ledger"
+	"github.com/rigochain/rigo-go/types"
+)
+
+// VerifPower is one (address, power) pair of the volatile validator bookkeeping.
+type VerifPower struct {
+	Addr  types.Address
+	Power int64
+}
+
+// VerifVolatile is a copy of the in-memory state of the stake controller
+// that is not stored in any ledger.
+type VerifVolatile struct {
+	LastValidators []VerifPower
+	AllDelegatees  []VerifPower
+	LimiterObjs    []VerifPower
+	LimiterBase    int64
+	LimiterUpdated int64
+	LimiterOn      bool
+	LastRwdHash    []byte
+}
+
+func (ctrler *StakeCtrler) VerifDelegateeLedger() *ledger.FinalityLedger[*Delegatee] {
+	return ctrler.delegateeLedger.(*ledger.FinalityLedger[*Delegatee])
+}
+
+func (ctrler *StakeCtrler) VerifFrozenLedger() *ledger.FinalityLedger[*Stake] {
+	return ctrler.frozenLedger.(*ledger.FinalityLedger[*Stake])
+}
+
+func (ctrler *StakeCtrler) VerifRewardLedger() *ledger.FinalityLedger[*Reward] {
+	return ctrler.rewardLedger.(*ledger.FinalityLedger[*Reward])
+}
+
+func (ctrler *StakeCtrler) VerifVolatile() VerifVolatile {
+	ctrler.mtx.RLock()
+	defer ctrler.mtx.RUnlock()
+
+	ret := VerifVolatile{LastRwdHash: append([]byte(nil), ctrler.lastRwdHash...)}
+	for _, d := range ctrler.lastValidators {
+		ret.LastValidators = append(ret.LastValidators, VerifPower{d.Addr, d.TotalPower})
+	}
+	for _, d := range ctrler.allDelegatees {
+		ret.AllDelegatees = append(ret.AllDelegatees, VerifPower{d.Addr, d.TotalPower})
+	}
+	sl := ctrler.stakeLimiter
+	sl.mtx.RLock()
+	defer sl.mtx.RUnlock()
+	for _, o := range sl.powerObjs {
+		ret.LimiterObjs = append(ret.LimiterObjs, VerifPower{o.Addr, o.Power})
+	}
+	ret.LimiterBase = sl.baseTotalPower
+	ret.LimiterUpdated = sl.updatedPower
+	ret.LimiterOn = len(ctrler.lastValidators) >= 3
+	return ret
+}
